@@ -1,6 +1,7 @@
 package vc
 
 import (
+	"regexp"
 	"strings"
 	"fmt"
 	"go/ast"
@@ -120,6 +121,8 @@ func VerifyCallsites(p *Program, fc *FuncContract, prop string) (u *Unit) {
 	return u
 }
 
+var identRe = regexp.MustCompile(`[A-Za-z_][A-Za-z0-9_]*`)
+
 func (x *Exec) verifyOneCallsite(fi *FuncInfo, cs CallsiteClause, call *ast.CallExpr, frames []csFrame, ord int) {
 	info := fi.Pkg.TypesInfo
 	cx := x.newCtx(fi, nil)
@@ -160,6 +163,36 @@ func (x *Exec) verifyOneCallsite(fi *FuncInfo, cs CallsiteClause, call *ast.Call
 	for _, a := range call.Args {
 		usesOf(a)
 	}
+	// variables the clause itself names (e.g. a guard `if tooDeep(doc) { return }` before a call that does not take doc)
+	clauseNames := map[string]bool{}
+	for _, m := range identRe.FindAllString(cs.Clause.Text, -1) {
+		clauseNames[m] = true
+	}
+	for v := range env.vars {
+		if clauseNames[v.Name()] {
+			needed[v] = true
+		}
+	}
+	// an early exit guarded by a needed variable restricts the paths that reach the call
+	guardsNeeded := func(st ast.Stmt) bool {
+		is, ok := st.(*ast.IfStmt)
+		if !ok || is.Else != nil || len(is.Body.List) == 0 {
+			return false
+		}
+		if _, isRet := is.Body.List[len(is.Body.List)-1].(*ast.ReturnStmt); !isRet {
+			return false
+		}
+		hit := false
+		ast.Inspect(is.Cond, func(n ast.Node) bool {
+			if id, ok := n.(*ast.Ident); ok {
+				if v, ok := info.Uses[id].(*types.Var); ok && needed[v] && clauseNames[v.Name()] {
+					hit = true
+				}
+			}
+			return true
+		})
+		return hit
+	}
 	relevant := map[ast.Stmt]bool{}
 	for k := len(frames) - 1; k >= 0; k-- {
 		fr := frames[k]
@@ -184,6 +217,9 @@ func (x *Exec) verifyOneCallsite(fi *FuncInfo, cs CallsiteClause, call *ast.Call
 				if needed[o] {
 					hit = true
 				}
+			}
+			if !hit && guardsNeeded(st) {
+				hit = true
 			}
 			if hit {
 				relevant[st] = true
